@@ -22,7 +22,10 @@ ALL_POLICIES = GREEDY + PLANNERS + ("Clockwork",)
 PROB_SETS = {
     2: [(0.5, 0.5), (0.25, 0.75), (0.75, 0.25), (1.0, 0.0), (0.0, 1.0), (0.125, 0.875)],
     3: [(0.25, 0.25, 0.5), (0.5, 0.25, 0.25), (0.0, 0.5, 0.5), (1.0, 0.0, 0.0),
-        (0.125, 0.375, 0.5)],
+        (0.125, 0.375, 0.5), (0.5, 0.5, 0.0), (0.5, 0.0, 0.5), (0.0, 0.0, 1.0), (0.0, 1.0, 0.0),
+        (0.25, 0.75, 0.0), (0.75, 0.0, 0.25)],
+    4: [(0.25, 0.25, 0.25, 0.25), (0.5, 0.0, 0.5, 0.0), (0.0, 0.25, 0.75, 0.0), (0.125, 0.125, 0.25, 0.5),
+        (0.0, 0.0, 0.0, 1.0), (0.25, 0.25, 0.5, 0.0)],
 }
 for _k, _v in PROB_SETS.items():
     for _p in _v:
@@ -70,7 +73,7 @@ def _cond_block(rng, namer, depth, budget, branch_dag=False, blocks=None):
     `blocks` collects {cond, terminal, branches:[{entry, exit, nodes}]} for the monitors."""
     c, t = namer() + "c", namer() + "t"
     blk = {"cond": c, "terminal": t, "branches": []}
-    nb = rng.choice([2, 2, 3])
+    nb = rng.choice([2, 2, 3, 3, 4])
     probs = rng.choice(PROB_SETS[nb])
     nodes, c_children = [], []
     for b in range(nb):
@@ -192,7 +195,7 @@ def gen_graph(rng, gname, max_nodes=8, shapes=None, allow_cond=True):
 # cluster
 # ---------------------------------------------------------------------------
 def gen_cluster(rng, max_pools=3, max_workers=3, types=("CPU", "GPU"), multi_instance=0.25,
-                max_q=4):
+                max_q=4, repeat_anonymous=0.0):
     pools = []
     ntypes = rng.randint(1, len(types))
     used_types = list(types[:ntypes])
@@ -206,6 +209,10 @@ def gen_cluster(rng, max_pools=3, max_workers=3, types=("CPU", "GPU"), multi_ins
                 if rng.random() < multi_instance:
                     for inst in ("a", "b"):
                         res.append({"name": f"{t}:{inst}", "quantity": rng.randint(1, max(1, max_q // 2))})
+                elif repeat_anonymous and rng.random() < repeat_anonymous:
+                    # the one-entry-per-unit style of the bundled worker profiles: the same name several times, no id
+                    for _ in range(rng.randint(2, 4)):
+                        res.append({"name": t, "quantity": rng.randint(1, 2)})
                 else:
                     res.append({"name": t, "quantity": rng.randint(1, max_q)})
             workers.append({"name": f"W_{p}_{w}", "resources": res})
